@@ -72,10 +72,6 @@ func main() {
 		return
 	}
 	e.findingViaPrecompile()
-	if getenv("VERIF_PROBE") == "outcall" {
-		e.outcallProbe()
-		return
-	}
 
 	var bc, att, gv, rc []string
 	// fixed corpus first (replays of the model's witnesses), then generated cases
@@ -87,6 +83,7 @@ func main() {
 	gv = e.govCases(n / 4)
 	rc = e.ibcRecvCases()
 	stf := e.sendToFxIbcCases()
+	ocs := e.outgoingCallCases()
 
 	imports := []string{"model.M_Cache", "model.M_CacheCorr"}
 	lib.WriteCases("Cases_C18_bridgecall.v", imports, "bc_case", bc, "bc_mismatch")
@@ -94,6 +91,7 @@ func main() {
 	lib.WriteCases("Cases_C18_gov.v", imports, "gov_case", gv, "gov_mismatch")
 	lib.WriteCases("Cases_C18_ibcrecv.v", imports, "recv_case", rc, "recv_mismatch")
 	lib.WriteCases("Cases_C18_sendtofx.v", imports, "stf_case", stf, "stf_mismatch")
+	lib.WriteCases("Cases_C18_outcall.v", imports, "oc_case", ocs, "oc_mismatch")
 	e.rep.Write()
 }
 
@@ -311,6 +309,12 @@ func (e *env) bridgeCallCorpus() []string {
 		{Tokens: [][2]int64{{3, 6}, {-1, 4}, {0, 10}}, Disabled: []int{3}, Target: "stop", Refund: "rich"},
 		{Tokens: [][2]int64{{-1, 40}, {2, 5}}, Disabled: []int{-1}, Target: "eoa", Refund: "same"},
 		{Tokens: [][2]int64{{-1, 40}, {3, 5}}, Target: "writestop", Refund: "same"},
+		// a deposit the module cannot pay (externally owned pair / FX are paid out of the module's holdings): reachable only if the
+		// external chain reports more than ever left through this module — the handler errors after the earlier deposits were
+		// written, the transaction keeps nothing
+		{Tokens: [][2]int64{{0, 5}, {3, 2_000_000}}, Target: "stop", Refund: "same"},
+		{Tokens: [][2]int64{{1, 5}, {-1, 2_000_000}, {2, 1}}, Target: "writerevert", Refund: "poor"},
+		{Tokens: [][2]int64{{3, 1_000_000}, {3, 1}}, Target: "eoa", Refund: "same", ViaEVM: true},
 		// msg.Value: paid by the callback sender inside the cache branch; short payer = the call is refused
 		{Tokens: [][2]int64{{1, 9}}, Target: "writestop", Refund: "poor", Value: 7, FundCaller: true},
 		{Tokens: [][2]int64{{1, 9}}, Target: "writerevert", Refund: "poor", Value: 7, FundCaller: true},
@@ -585,7 +589,9 @@ func (e *env) bridgeCallCase(k bcCase) string {
 		}
 		valueShort = have.Cmp(big.NewInt(k.Value)) < 0
 	}
-	innerFails := !hasUnknown && (disabledHit || (isContract && (fails || valueShort)))
+	// the module cannot pay a deposit: handler error like an unknown token
+	depositShort := sums[3] > 1_000_000 || sums[-1] > 1_000_000
+	innerFails := !hasUnknown && !depositShort && (disabledHit || (isContract && (fails || valueShort)))
 	wroteInside := innerFails && (len(sums) > 0 || writes != 0)
 
 	// ---- monitor: designated outcome on a second fresh branch, full dump comparison
